@@ -832,35 +832,82 @@ func (a Alt) holdsFor(accept func(cond ssa.Value, want bool) bool) bool {
 }
 
 // everyPathCrosses reports whether every CFG path from the function's entry to target takes at least
-// one conditional edge for which accept(cond, polarity) holds. An edge inside a cycle is never
-// honoured (the condition could belong to an earlier iteration).
+// one conditional edge for which accept(cond, polarity) holds — and the condition still speaks about
+// the same values when target is reached: an accepted edge is not honoured if, after taking it,
+// control can run through the block that computes the condition again and then reach target without
+// taking an accepted edge (the fact would belong to an earlier loop iteration).
 func everyPathCrosses(target *ssa.BasicBlock, accept func(cond ssa.Value, want bool) bool) bool {
 	fn := target.Parent()
-	seen := map[*ssa.BasicBlock]bool{}
-	work := []*ssa.BasicBlock{fn.Blocks[0]}
-	for len(work) > 0 {
-		b := work[len(work)-1]
-		work = work[:len(work)-1]
-		if seen[b] {
+	type edge struct {
+		from *ssa.BasicBlock
+		k    int
+	}
+	accepted := map[edge]bool{}
+	defBlocks := map[edge][]*ssa.BasicBlock{}
+	for _, b := range fn.Blocks {
+		ifi, isIf := b.Instrs[len(b.Instrs)-1].(*ssa.If)
+		if !isIf || b.Succs[0] == b.Succs[1] {
 			continue
 		}
-		seen[b] = true
-		if b == target {
-			return false
-		}
-		ifi, isIf := b.Instrs[len(b.Instrs)-1].(*ssa.If)
-		for k, s := range b.Succs {
-			if isIf && b.Succs[0] != b.Succs[1] {
-				cnd, flip := stripNot(ifi.Cond)
-				want := (k == 0) != flip
-				if accept(cnd, want) && !blocksAfter(s)[b] {
-					continue
-				}
+		cnd, flip := stripNot(ifi.Cond)
+		for k := range b.Succs {
+			want := (k == 0) != flip
+			if accept(cnd, want) {
+				e := edge{b, k}
+				accepted[e] = true
+				walkCond(cnd, func(v ssa.Value) {
+					if in, ok := v.(ssa.Instruction); ok && in.Block() != nil {
+						defBlocks[e] = append(defBlocks[e], in.Block())
+					}
+					if ex, ok := v.(*ssa.Extract); ok {
+						if in, ok := ex.Tuple.(ssa.Instruction); ok && in.Block() != nil {
+							defBlocks[e] = append(defBlocks[e], in.Block())
+						}
+					}
+				})
 			}
-			work = append(work, s)
 		}
 	}
-	return true
+	reach := func(from *ssa.BasicBlock) map[*ssa.BasicBlock]bool {
+		seen := map[*ssa.BasicBlock]bool{}
+		work := []*ssa.BasicBlock{from}
+		for len(work) > 0 {
+			b := work[len(work)-1]
+			work = work[:len(work)-1]
+			if seen[b] {
+				continue
+			}
+			seen[b] = true
+			for k, s := range b.Succs {
+				if accepted[edge{b, k}] {
+					continue
+				}
+				work = append(work, s)
+			}
+		}
+		return seen
+	}
+	for changed := true; changed; {
+		changed = false
+		for e := range accepted {
+			s := e.from.Succs[e.k]
+			fromS := reach(s)
+			stale := false
+			for _, db := range defBlocks[e] {
+				if db == e.from && !fromS[db] {
+					continue
+				}
+				if fromS[db] && reach(db)[target] {
+					stale = true
+				}
+			}
+			if stale {
+				delete(accepted, e)
+				changed = true
+			}
+		}
+	}
+	return !reach(fn.Blocks[0])[target]
 }
 
 // relationOnEdge returns the ordering relation `x op y` that holds when the branch on cond is taken
